@@ -531,11 +531,11 @@ func c03Patterns(n int) [][]int {
 // McIlroy's adversarial input: values are fixed lazily while the sort runs, so
 // that every pivot turns out to be small and the depth budget is exhausted.
 type advComparable struct {
-	val     []int
-	gas     int
-	nsolid  int
-	cand    int
-	ncmp    int
+	val    []int
+	gas    int
+	nsolid int
+	cand   int
+	ncmp   int
 }
 
 func (a *advComparable) Compare(i, j uint32) seam.CompareResult {
